@@ -239,8 +239,8 @@ func Execute(t *testing.T, h Harness, plan *Plan) *Result {
 					res.Anomaly = fmt.Sprintf("%s (end=%s tasks: %s)", an, end, sim.TaskDump())
 				}
 			}
-			if len(sim.PanicTasks) > 0 && res.Anomaly == "" && res.Sig == "" {
-				res.Anomaly = "task panic: " + sim.PanicTasks[0]
+			if len(sim.PanicTasks) > 0 && res.Sig == "" {
+				res.Anomaly = "task panic: " + sim.PanicTasks[0] + " || " + res.Anomaly
 			}
 			res.Digest = sim.Digest()
 			res.Sched = sim.SchedDigest()
